@@ -1293,3 +1293,81 @@ func substTermChain(t string, chain []Site) string {
 	}
 	return t
 }
+
+// flowsFromCallResult: v is result #idx of the call target — directly, or handed on through φ/conversions/single-store
+// locals, through the results of same-package helpers (every return of the helper that does not report an error hands on
+// such a value) and through parameters (at every call of the enclosing function).
+func (p *Prog) flowsFromCallResult(v ssa.Value, target *ssa.Call, idx, depth int) bool {
+	if v == nil || depth > 8 {
+		return false
+	}
+	switch x := v.(type) {
+	case *ssa.Extract:
+		call, ok := x.Tuple.(*ssa.Call)
+		if !ok {
+			return false
+		}
+		if call == target {
+			return x.Index == idx
+		}
+		g := call.Call.StaticCallee()
+		if g == nil || len(g.Blocks) == 0 || target.Parent() == nil || pkgRelOf(g) != pkgRelOf(rootOf(target.Parent())) {
+			return false
+		}
+		n := 0
+		for _, r := range returnsOf(g) {
+			if x.Index >= len(r.Results) {
+				return false
+			}
+			last := r.Results[len(r.Results)-1]
+			if last.Type().String() == "error" && !isNilConst(last) && x.Index != len(r.Results)-1 {
+				continue // error return: the value is not used by the caller
+			}
+			n++
+			if !p.flowsFromCallResult(r.Results[x.Index], target, idx, depth+1) {
+				return false
+			}
+		}
+		return n > 0
+	case *ssa.Parameter:
+		fn := x.Parent()
+		pi := -1
+		for i, q := range fn.Params {
+			if q == x {
+				pi = i
+			}
+		}
+		callers := p.callersOf(fn)
+		if pi < 0 || len(callers) == 0 {
+			return false
+		}
+		for _, cs := range callers {
+			args := cs.Instr.Common().Args
+			if pi >= len(args) || !p.flowsFromCallResult(args[pi], target, idx, depth+1) {
+				return false
+			}
+		}
+		return true
+	case *ssa.Phi:
+		if len(x.Edges) == 0 {
+			return false
+		}
+		for _, e := range x.Edges {
+			if !p.flowsFromCallResult(e, target, idx, depth+1) {
+				return false
+			}
+		}
+		return true
+	case *ssa.ChangeType:
+		return p.flowsFromCallResult(x.X, target, idx, depth+1)
+	case *ssa.Convert:
+		return p.flowsFromCallResult(x.X, target, idx, depth+1)
+	case *ssa.UnOp:
+		if a, ok := x.X.(*ssa.Alloc); ok && x.Op == token.MUL {
+			if st := singleStore(a); st != nil {
+				return p.flowsFromCallResult(st.Val, target, idx, depth+1)
+			}
+		}
+	}
+	return false
+}
